@@ -408,6 +408,18 @@ def run_case(desc, seed):
         ops += [Op(a.symbol, a.dofs, a.factor, a.qn_list) for a in A] + [Op(a.symbol, a.dofs, complex(a.factor), a.qn_list) for a in A] + \
                [Op(a.symbol, a.dofs, np.float64(a.factor), [np.array(q, dtype=np.int32) for q in a.qn_list]) for a in A]
         ops = ops[:400]
+        # operators that differ ONLY in how the same total quantum number is distributed over their symbols
+        redistributed = []
+        for a in [o for o in ops if len(o.split_symbol) >= 2][:40]:
+            for k in (1, -1, 2):
+                ql = [np.array(q) for q in a.qn_list]
+                ql[0] = ql[0] + k
+                ql[-1] = ql[-1] - k
+                try:
+                    redistributed.append(Op(a.symbol, a.dofs, a.factor, ql))
+                except Exception:
+                    pass
+        ops = ops + redistributed
         for a in ops:
             if not (a == a):
                 add("C15:eq:not-reflexive", f"{a}")
@@ -417,7 +429,9 @@ def run_case(desc, seed):
             if e1 != e2:
                 add("C15:eq:not-symmetric", f"{a} vs {b}")
             if e1 and hash(a) != hash(b):
-                add("C15:eq-hash:inconsistent", f"{a} == {b} but hashes differ")
+                add("C15:eq-hash:inconsistent", f"{a!r} == {b!r} but hashes differ")
+            if e1 and ((a in {b}) != (a in [b])):
+                add("C15:eq-hash:set-vs-list-membership", f"{a!r} in [b] but not in {{b}} for b = {b!r}")
             if e1 and not close(fam.dense(a), fam.dense(b), TOL, floor=1e-12):
                 add("C15:eq:different-operators", f"{a} == {b} but they denote different matrices")
         nonzero[0] = True
